@@ -513,7 +513,7 @@ class ManifestContext:
         clk_cgi_params = options.generate_cgi_parameters(
             use=OptionUsage.TIME, exclude=exclude)
 
-        if options.videoErrors:
+        if options.videoErrors and video.representations:
             times = self.calculate_injected_error_segments(
                 options.videoErrors,
                 self.now,
@@ -532,7 +532,7 @@ class ManifestContext:
                     audio[0].representations[0])
                 aud_cgi_params['aerr'] = times
 
-        if options.videoCorruption:
+        if options.videoCorruption and video.representations:
             errs = [(None, tc) for tc in options.videoCorruption]
             segs = self.calculate_injected_error_segments(
                 errs,
